@@ -287,8 +287,16 @@ type Query struct {
 	Field  string          `json:"field"`
 	Args   map[string]Lit  `json:"args"`
 	Subs   []Sub           `json:"subs"`
-	Accept map[string]bool `json:"accept"` // "s<i>/v<j>" -> the real PrepareQuery accepts
+	// what each service that can resolve the root field would be sent (the sub-selections the gateway
+	// believes it resolves), and whether the real PrepareQuery of each of its versions accepts that
+	Parts  map[string]Part   `json:"parts"`  // "s<i>" -> part
+	Accept map[string]bool   `json:"accept"` // "s<i>/v<j>" -> accepted (only versions of services in Parts)
 	Why    map[string]string `json:"why"`
+}
+
+type Part struct {
+	Text string `json:"text"`
+	Subs []Sub  `json:"subs"`
 }
 
 func renderLit(l Lit) string {
@@ -315,22 +323,14 @@ func randLit(r *rand.Rand, name string) Lit {
 	switch name {
 	case "id", "min", "max":
 		switch r.Intn(8) {
-		case 0:
-			return Lit{K: "null", V: "null", Fields: map[string]Lit{}}
 		case 1:
 			return Lit{K: "str", V: "x", Fields: map[string]Lit{}}
 		default:
 			return Lit{K: "int", V: fmt.Sprint(1 + r.Intn(3)), Fields: map[string]Lit{}}
 		}
 	case "kind":
-		if r.Intn(8) == 0 {
-			return Lit{K: "null", V: "null", Fields: map[string]Lit{}}
-		}
 		return Lit{K: "enum", V: []string{"A", "B", "C", "D"}[r.Intn(4)], Fields: map[string]Lit{}}
 	default: // filter
-		if r.Intn(8) == 0 {
-			return Lit{K: "null", V: "null", Fields: map[string]Lit{}}
-		}
 		l := Lit{K: "obj", Fields: map[string]Lit{}}
 		for _, f := range []string{"min", "max", "zzz"} {
 			p := 2
@@ -346,7 +346,7 @@ func randLit(r *rand.Rand, name string) Lit {
 }
 
 func randQuery(r *rand.Rand) Query {
-	q := Query{Args: map[string]Lit{}, Subs: []Sub{}, Accept: map[string]bool{}, Why: map[string]string{}}
+	q := Query{Args: map[string]Lit{}, Subs: []Sub{}, Parts: map[string]Part{}, Accept: map[string]bool{}, Why: map[string]string{}}
 	q.Field = []string{"item", "item", "item", "items", "count", "any", "nope"}[r.Intn(7)]
 	if q.Field == "item" || r.Intn(10) == 0 {
 		for _, a := range []string{"id", "filter", "kind", "bogus"} {
@@ -376,6 +376,16 @@ func randQuery(r *rand.Rand) Query {
 			q.Subs = append(q.Subs, Sub{Field: "id"})
 		}
 	}
+	q.Text = render(q.Field, q.Args, q.Subs)
+	return q
+}
+
+func render(field string, args map[string]Lit, subs []Sub) string {
+	q := struct {
+		Field string
+		Args  map[string]Lit
+		Subs  []Sub
+	}{field, args, subs}
 	var b strings.Builder
 	b.WriteString("{ " + q.Field)
 	if len(q.Args) > 0 {
@@ -402,8 +412,7 @@ func randQuery(r *rand.Rand) Query {
 		b.WriteString(" }")
 	}
 	b.WriteString(" }")
-	q.Text = b.String()
-	return q
+	return b.String()
 }
 
 // Rec is one merge scenario.
@@ -487,10 +496,45 @@ func scenario(r *rand.Rand, i, nq int) (Rec, error) {
 	}
 	for k := 0; k < nq; k++ {
 		q := randQuery(r)
+		// route by what the real gateway believes (first naming; the judge checks that belief against the reference)
+		belief := rec.Outs[0].Services
+		rootType := ""
+		if o := rec.Outs[0]; o.Ok {
+			if f, ok := o.Schema["Query"].Fields[q.Field]; ok {
+				rootType = f.Type.Name
+			}
+		}
+		has := func(list []string, x string) bool {
+			for _, y := range list {
+				if y == x {
+					return true
+				}
+			}
+			return false
+		}
 		for s, vs := range svcs {
+			sid := fmt.Sprintf("s%d", s+1)
+			if !rec.Outs[0].ConvOk || !has(belief["Query."+q.Field], sid) {
+				continue
+			}
+			part := Part{Subs: []Sub{}}
+			for _, sub := range q.Subs {
+				t := sub.On
+				if t == "" {
+					t = rootType
+				}
+				if has(belief[t+"."+sub.Field], sid) {
+					part.Subs = append(part.Subs, sub)
+				}
+			}
+			if len(q.Subs) > 0 && len(part.Subs) == 0 {
+				part.Subs = append(part.Subs, Sub{Field: "__typename"})
+			}
+			part.Text = render(q.Field, q.Args, part.Subs)
+			q.Parts[sid] = part
 			for j, v := range vs {
 				key := fmt.Sprintf("s%d/v%d", s+1, j+1)
-				ok, why := accepts(v, q.Text)
+				ok, why := accepts(v, part.Text)
 				q.Accept[key] = ok
 				q.Why[key] = why
 			}
